@@ -219,8 +219,13 @@ func (r *Raft) onTakeSnapshot(t takeSnapshot) {
 		return
 	}
 	r.snapTakenCh = make(chan snapTaken, 1)
-	go func(index uint64, config Config) { // tracked by r.snapTakenCh
-		meta, err := doTakeSnapshot(r.fsm, index, config)
+	// ask the fsm from this goroutine: the request is then ordered right after
+	// the applies queued so far, so the snapshot is taken at r.commitIndex,
+	// the index whose configuration r.configs.Committed is
+	req := fsmSnapReq{task: newTask(), index: r.snaps.index + t.threshold}
+	r.fsm.ch <- req
+	go func(config Config) { // tracked by r.snapTakenCh
+		meta, err := doTakeSnapshot(r.fsm, req, config)
 		if trace {
 			println(r, "doTakeSnapshot err:", err)
 		}
@@ -229,13 +234,11 @@ func (r *Raft) onTakeSnapshot(t takeSnapshot) {
 			meta: meta,
 			err:  err,
 		}
-	}(r.snaps.index+t.threshold, r.configs.Committed)
+	}(r.configs.Committed)
 }
 
-func doTakeSnapshot(fsm *stateMachine, index uint64, config Config) (snapshotMeta, error) {
+func doTakeSnapshot(fsm *stateMachine, req fsmSnapReq, config Config) (snapshotMeta, error) {
 	// get fsm state
-	req := fsmSnapReq{task: newTask(), index: index}
-	fsm.ch <- req
 	<-req.Done()
 	if req.Err() != nil {
 		return snapshotMeta{}, req.Err()
